@@ -694,6 +694,12 @@ def evaluate_smt_formula(
     ):
         return Some(ThreeValuedTruth.unknown())
 
+    # The same holds for open trees assigned to the free variables: their string is
+    # not known yet. (Without this check, formulas that are left to Z3 were decided on
+    # the text of the open leaves, e.g., on "<num>".)
+    if any(assignments[var][1].is_open() for var in formula.free_variables()):
+        return Some(ThreeValuedTruth.unknown())
+
     z3_formula = (
         z3_subst(
             formula.formula,
